@@ -209,6 +209,11 @@ def canon(term):
 WITNESS_WN = "%s %s %s %s 0 0 0" % ("m".encode().hex(), "M$bound".encode().hex(), "m/a".encode().hex(), "T".encode().hex())
 
 
+def dec(term):
+    """readable form of a term (hex fields decoded); scope paths of local types are the numbers after the type arguments"""
+    return " ".join(uh(x) if re.fullmatch(r"([0-9a-f]{2}){2,}", x) else x for x in term.split(" "))
+
+
 def term_paths(term):
     """package paths mentioned in a term (hex fields following F/M/G/N tags)"""
     t = term.split(" ")
@@ -562,7 +567,7 @@ def run(ctx, args):  # noqa: C901
                 continue
             rs = [v[0] for v in ents.values()]
             kinds = set(r["kind"] for r in rs)
-            strs = sorted(r["str"] for r in rs)
+            strs = sorted(r["str"] + "  {" + dec(r["term"]) + "}" for r in rs)
             what = "%s: %d different entities share the link name %r (compiling %s): %s" % (tname, len(rs), nm, cur, strs)
             spec_failures.append(what)
             paths = [p for r in rs for p in term_paths(r["term"])]
